@@ -75,11 +75,10 @@ Qed.
 Lemma head_get_len hp n : lenN (snd (head_get hp n)) <= lenN hp.
 Proof. destruct hp; cbn [head_get snd]; [lia | rewrite lenN_cons; lia]. Qed.
 
-(* [Message::new()] always hands out a head without headers and without flags:
-   a new one, or a recycled one that [RequestHead::clear] has just wiped *)
-Lemma head_get_clean hp n :
-  h_headers (fst (head_get hp n)) = [] /\ h_flags (fst (head_get hp n)) = 0.
-Proof. destruct hp; cbn; split; reflexivity. Qed.
+(* [Message::new()] always hands out [RequestHead::default()]: a new head, or a recycled one
+   that [RequestHead::clear] has just reset field by field *)
+Lemma head_get_default hp n : exists id, fst (head_get hp n) = head_default id.
+Proof. destruct hp as [|h r]; cbn [head_get fst]; [exists n | exists (h_id h)]; reflexivity. Qed.
 
 (* --- mutations keep the root container at the bottom of the application-data stack *)
 Lemma apply_mut_rooted o m : rootedP o -> rootedP (apply_mut o m).
@@ -215,45 +214,45 @@ Proof. destruct a, b; cbn; intros; subst; reflexivity. Qed.
 Section Fields.
 Variables (s : st) (q : reqd).
 Hypothesis HI : Inv s.
-Hypothesis HP : full_producer (q_prod q) = true.
 
 Let o := snd (requestP s q).
 
-(* head fields: written by the producer; headers and flags additionally need the cleared head *)
+(* head fields: written by the producer, or left as [Message::new()] delivered them, i.e. at
+   their defaults (this is where every line of [head_clear] is needed) *)
+Notation cq := (conveyed q).
 Lemma head_fields :
-  h_method (req_head s q) = q_method q /\ h_uri (req_head s q) = q_uri q /\
-  h_version (req_head s q) = q_version q /\ h_headers (req_head s q) = q_headers q /\
-  h_peer (req_head s q) = q_peer q /\ h_flags (req_head s q) = q_flags q.
+  h_method (req_head s q) = q_method cq /\ h_uri (req_head s q) = q_uri cq /\
+  h_version (req_head s q) = q_version cq /\ h_headers (req_head s q) = q_headers cq /\
+  h_peer (req_head s q) = q_peer cq /\ h_flags (req_head s q) = q_flags cq.
 Proof.
-  unfold req_head, produce.
-  destruct (head_get_clean (s_hpool s) (s_nreq s)) as [Hh Hf].
-  destruct (q_prod q); try discriminate; cbn [h_method h_uri h_version h_headers h_peer h_flags];
-    rewrite ?Hh, ?Hf; repeat split; reflexivity.
+  unfold req_head, produce, conveyed.
+  destruct (head_get_default (s_hpool s) (s_nreq s)) as [id Hd]. rewrite Hd.
+  destruct (q_prod q); cbn; repeat split; reflexivity.
 Qed.
 
 Lemma o_head_eq : o_head o = req_head s q.
 Proof. unfold o. rewrite request_obj. destruct (s_rpool s); reflexivity. Qed.
 
-Lemma f_method : v_method (view_of o) = q_method q.
+Lemma f_method : v_method (view_of o) = q_method cq.
 Proof. cbn [view_of v_method]. rewrite o_head_eq. apply head_fields. Qed.
-Lemma f_uri : v_uri (view_of o) = q_uri q.
+Lemma f_uri : v_uri (view_of o) = q_uri cq.
 Proof. cbn [view_of v_uri]. rewrite o_head_eq. apply head_fields. Qed.
-Lemma f_version : v_version (view_of o) = q_version q.
+Lemma f_version : v_version (view_of o) = q_version cq.
 Proof. cbn [view_of v_version]. rewrite o_head_eq. apply head_fields. Qed.
-Lemma f_headers : v_headers (view_of o) = q_headers q.
+Lemma f_headers : v_headers (view_of o) = q_headers cq.
 Proof. cbn [view_of v_headers]. rewrite o_head_eq. apply head_fields. Qed.
-Lemma f_peer : v_peer (view_of o) = q_peer q.
+Lemma f_peer : v_peer (view_of o) = q_peer cq.
 Proof. cbn [view_of v_peer]. rewrite o_head_eq. apply head_fields. Qed.
-Lemma f_flags : v_flags (view_of o) = q_flags q.
+Lemma f_flags : v_flags (view_of o) = q_flags cq.
 Proof. cbn [view_of v_flags]. rewrite o_head_eq. apply head_fields. Qed.
 
 (* path.path: Url::update / Url::new from the NEW head's uri *)
-Lemma f_path_uri : v_path_uri (view_of o) = q_uri q.
+Lemma f_path_uri : v_path_uri (view_of o) = q_uri cq.
 Proof.
   cbn [view_of v_path_uri]. unfold o. rewrite request_obj.
   destruct (s_rpool s); cbn [obj_reinit obj_fresh o_uri]; apply head_fields.
 Qed.
-Lemma f_qpath : v_qpath (view_of o) = requote (q_uri q).
+Lemma f_qpath : v_qpath (view_of o) = requote (q_uri cq).
 Proof.
   cbn [view_of v_qpath]. unfold o. rewrite request_obj.
   destruct (s_rpool s); cbn [obj_reinit obj_fresh o_qpath]; f_equal; apply head_fields.
@@ -276,14 +275,20 @@ Proof.
   inversion Hc as [|? ? (Ha & _) _]; subst. exact Ha.
 Qed.
 (* conn_data, extensions: assigned from the incoming Request *)
-Lemma f_conn : v_conn (view_of o) = q_conn q.
-Proof. cbn [view_of v_conn]. unfold o. rewrite request_obj. destruct (s_rpool s); reflexivity. Qed.
-Lemma f_exts : v_exts (view_of o) = q_exts q.
-Proof. cbn [view_of v_exts]. unfold o. rewrite request_obj. destruct (s_rpool s); reflexivity. Qed.
+Lemma f_conn : v_conn (view_of o) = q_conn cq.
+Proof.
+  cbn [view_of v_conn]. unfold o. rewrite request_obj.
+  destruct (s_rpool s); unfold conveyed; destruct (q_prod q); reflexivity.
+Qed.
+Lemma f_exts : v_exts (view_of o) = q_exts cq.
+Proof.
+  cbn [view_of v_exts]. unfold o. rewrite request_obj.
+  destruct (s_rpool s); unfold conveyed; destruct (q_prod q); reflexivity.
+Qed.
 
 Lemma request_view_spec : view_of o = spec_view requote root q.
 Proof.
-  apply view_ext; cbn [spec_view v_method v_uri v_version v_headers v_peer v_flags v_path_uri
+  apply view_ext; unfold spec_view; cbn [v_method v_uri v_version v_headers v_peer v_flags v_path_uri
                        v_qpath v_skip v_segs v_rids v_matched v_app_data v_conn v_exts].
   - exact f_method.
   - exact f_uri.
@@ -304,16 +309,16 @@ Qed.
 End Fields.
 
 Theorem view_determined es s q :
-  runP st_init es = Val s -> full_producer (q_prod q) = true ->
+  runP st_init es = Val s ->
   view_of (snd (requestP s q)) = spec_view requote root q.
-Proof. intros H HP. apply request_view_spec; [eapply reachable_inv; exact H | exact HP]. Qed.
+Proof. intros H. apply request_view_spec. eapply reachable_inv; exact H. Qed.
 
 Theorem view_independent_of_history es s q :
-  runP st_init es = Val s -> full_producer (q_prod q) = true ->
+  runP st_init es = Val s ->
   view_of (snd (requestP s q)) = view_of (snd (requestP st_init q)).
 Proof.
-  intros H HP. rewrite (view_determined es s q H HP).
-  symmetry. apply (view_determined [] st_init q); [reflexivity | exact HP].
+  intros H. rewrite (view_determined es s q H).
+  symmetry. apply (view_determined [] st_init q). reflexivity.
 Qed.
 
 (* ------------------------------------------------------------------ what happens afterwards
@@ -335,10 +340,10 @@ Proof.
 Qed.
 
 Theorem handler_view_independent es s q acts :
-  runP st_init es = Val s -> full_producer (q_prod q) = true ->
+  runP st_init es = Val s ->
   view_of (fold_left apply_hact acts (snd (requestP s q))) =
   view_of (fold_left apply_hact acts (snd (requestP st_init q))).
-Proof. intros H HP. apply apply_hacts_congr, (view_independent_of_history es s q H HP). Qed.
+Proof. intros H. apply apply_hacts_congr, (view_independent_of_history es s q H). Qed.
 
 (* ------------------------------------------------------------------ bounds, clean pool *)
 Theorem pool_bounds es s :
